@@ -320,7 +320,7 @@ Lemma resolve_slots body : forall st st' targets, resolve st body = (st', inl ta
 Proof.
   induction body as [|[slot f] rest IH]; intros st st' targets; cbn [resolve].
   - intro E; inversion E; reflexivity.
-  - destruct (slot_master st slot); [|discriminate]. destruct (find_pool st b); [|discriminate].
+  - destruct f as [b|]; [|discriminate]. destruct (find_pool st b); [|discriminate].
     destruct (pool_get st p) as [st1 [s|]]; [|discriminate].
     destruct (resolve st1 rest) as [st2 [l|e]] eqn:Er; [|discriminate].
     intro E; inversion E; subst. cbn [map fst]. rewrite (IH _ _ _ Er). reflexivity.
@@ -359,9 +359,9 @@ Proof.
   - destruct (cf_password (cfg st)); [apply NInv_local_reply, H|].
     destruct (cm_body m) as [|[s0 f0] body]; [exact H|].
     destruct (beqb _ _); apply NInv_local_reply, H.
-  - destruct (resolve st (by_slot (cm_body m))) as [st1 [targets|e]] eqn:Er; [|apply NInv_local_reply, H].
+  - destruct (resolve st (route_plan st (cm_type m) (by_slot (cm_body m)))) as [st1 [targets|e]] eqn:Er; [|apply NInv_local_reply, H].
     destruct (resolve_sinv _ _ _ _ HS Er) as (S1 & Hopen & Hmono). specialize (Hopen targets eq_refl).
-    pose proof (same_cm_resolve (by_slot (cm_body m)) st) as Hcm. rewrite Er in Hcm. cbn [fst] in Hcm.
+    pose proof (same_cm_resolve (route_plan st (cm_type m) (by_slot (cm_body m))) st) as Hcm. rewrite Er in Hcm. cbn [fst] in Hcm.
     pose proof (resolve_slots _ _ _ _ Er) as Hslots.
     assert (H1 : NInv st1) by (eapply NInv_keep; [apply pext_mono, Hmono | apply dmono_same_cm, Hcm | exact H]).
     set (mid := next_mid st1).
@@ -378,7 +378,7 @@ Proof.
       - cbn [pm_sm] in Hf. destruct (get_frag (sm_frags (smsg_of m (groups_for m))) slot) as [f|] eqn:Eg; [|discriminate].
         apply get_frag_slot in Eg. unfold smsg_of in Eg. cbn [sm_frags] in Eg. rewrite map_map in Eg. cbn [sf_slot] in Eg.
         apply Hwf in Eg. apply in_map_iff in Eg. destruct Eg as (sf & Es & Hin). apply by_slot_In in Hin.
-        assert (Hin2 : In slot (map fst targets)) by (rewrite Hslots; rewrite <- Es; apply in_map, Hin).
+        assert (Hin2 : In slot (map fst targets)) by (rewrite Hslots, route_plan_slots; rewrite <- Es; apply in_map, Hin).
         apply in_map_iff in Hin2. destruct Hin2 as (t & Et & Hint). rewrite <- Et.
         apply fold_enqueue_pending; [|exact Hint].
         intros t' Ht'. destruct (Hopen t' Ht') as (sv & A & B). exists sv. auto.
@@ -662,7 +662,7 @@ Qed.
 Theorem step_both st e st' : Both st -> step st e = ROk st' -> Both st'.
 Proof.
   intros [HS H] E. split; [eapply step_sinv; eassumption|]. revert E.
-  destruct e as [c adm|c b totals|order|s b|c|s| |s|nodes newslots]; cbn [step].
+  destruct e as [c adm|c b totals|order|s b|c|s| |s|nodes newslots|ch]; cbn [step].
   - destruct (lookup c (clients st)); intro E; apply ROk_inj in E; subst st'; exact H.
   - intro E; apply ROk_inj in E; subst st'. apply ensure_dials_both. unfold client_data.
     destruct (lookup c (clients st)) as [cl|]; [|split; assumption].
@@ -680,6 +680,7 @@ Proof.
     apply (NInv_keep st); [apply pext_same_s, same_s_expire | apply dmono_expire | exact H].
   - destruct (find_pool st s) as [p|]; [|intro E; apply ROk_inj in E; subst st'; exact H].
     destruct (pool_get st p) as [st1 [s1|]] eqn:Eg; pose proof (pool_get_ninv _ _ _ _ HS H Eg) as A; intro E; apply ROk_inj in E; subst st'; exact A.
+  - intro E; apply ROk_inj in E; subst st'. apply (NInv_keep st); [apply pext_servers; reflexivity | apply dmono_msgs; reflexivity | exact H].
   - intro E; apply ROk_inj in E; subst st'. apply (NInv_keep st); [apply pext_servers; reflexivity | apply dmono_msgs; reflexivity | exact H].
 Qed.
 
